@@ -104,6 +104,24 @@ theorem wrapping_pow_eq (bits L a e : ℕ) :
     have hne : (bits == 0) = false := by simp [h0]
     simp only [hne, Bool.false_eq_true, if_false, h0, one_mod bits hb, wpow_loop_eq bits L hb]
 
+theorem checked_pow_eq (bits L a e : ℕ) :
+    Ruint.Gen.val_checked_pow (e + 1) bits L a e = Pow.checkedPow bits a e := by
+  unfold Ruint.Gen.val_checked_pow Pow.checkedPow
+  rw [overflowing_pow_eq]
+  rcases Pow.overflowingPow bits a e with ⟨v, f⟩
+  cases f <;> rfl
+
+theorem saturating_pow_eq (bits L a e : ℕ) :
+    Ruint.Gen.val_saturating_pow (e + 1) bits L a e = Pow.saturatingPow bits a e := by
+  unfold Ruint.Gen.val_saturating_pow Pow.saturatingPow
+  rw [overflowing_pow_eq]
+  rcases Pow.overflowingPow bits a e with ⟨v, f⟩
+  cases f <;> rfl
+
+theorem pow_eq (bits L a e : ℕ) : Ruint.Gen.val_pow (e + 1) bits L a e = Pow.pow bits a e := by
+  unfold Ruint.Gen.val_pow Pow.pow
+  exact wrapping_pow_eq bits L a e
+
 /-! ### `reduce_mod`, `add_mod`, `pow_mod` -/
 
 theorem reduce_mod_eq (bits L a m : ℕ) : Ruint.Gen.val_reduce_mod bits L a m = Modular.reduceMod a m := by
